@@ -116,7 +116,7 @@ def random_desc(rng: random.Random, i: int) -> dict[str, Any]:
     for kind, pfx, lo, hi in (('create', 'c', 1, 4), ('update', 'u', 0, 3), ('delete', 'd', 0, 2), ('resume', 'r', 0, 2)):
         for j in range(rng.randint(lo, hi)):
             h: dict[str, Any] = {'kind': kind, 'id': f'{pfx}{j + 1}', 'script': _rand_script(rng)}
-            if kind in ('create', 'update') and rng.random() < 0.25:
+            if rng.random() < 0.25:      # (sub-handlers under every kind, incl. deletion and resuming)
                 h['subs'] = [{'id': f's{k + 1}', 'script': _rand_script(rng, 2)} for k in range(rng.randint(1, 2))]
             if rng.random() < 0.2:
                 h['opts'] = {'errors': rng.choice(['permanent', 'ignored', 'temporary']), 'backoff': rng.choice([0.5, 2])}
